@@ -1,6 +1,6 @@
 (* C15 — every designed network yields a consistent OMS partition and spectrum map.
    Property theorems about the model Verif.Model.Oms (statements in full; proofs in Proofs/Oms.v). *)
-From Coq Require Import QArith.
+From Coq Require Import QArith Lia.
 From Verif Require Import Prelude Model.Spectrum Model.Oms Proofs.Oms.
 Local Open Scope Z_scope.
 
@@ -235,3 +235,44 @@ Theorem build_empty_common_refuted :
   exists g si d, chain_wf g d /\ build_oms_list g si = Err "IndexError:common_range".
 Proof. exact Proofs.Oms.build_empty_common_refuted. Qed.
 Print Assumptions build_empty_common_refuted.
+
+(* a transceiver placed directly on a line: the faithful model puts one element into two OMS (as the code does) *)
+Theorem partition_trx_on_line_refuted :
+  exists g L u, NoDup (map uid g) /\ build_oms_els g = Ok L /\
+                count_occ Z.eq_dec (flat_map interior L) u = 2%nat.
+Proof. exact Proofs.Oms.partition_trx_on_line_refuted. Qed.
+Print Assumptions partition_trx_on_line_refuted.
+
+(* an amplifier-less OMS takes the SI band; if that exceeds the range of all amplifiers, Bitmap raises SpectrumError *)
+Theorem build_si_outside_refuted :
+  exists g si d, chain_wf g d /\ build_oms_list g si = Err "SpectrumError:bitmap_len".
+Proof. exact Proofs.Oms.build_si_outside_refuted. Qed.
+Print Assumptions build_si_outside_refuted.
+
+(* ---------------------------------------------------------------- further non-vacuity examples *)
+(* off-grid band edges 1 GHz inside their slots: sorted, slot-separated *)
+Example bitmap_len_nonvacuous :
+  let common := [((193101000000000 # 1), (193124000000000 # 1)); ((193151000000000 # 1), (193199000000000 # 1))] in
+  (0 < default_grid)%Q /\ sorted_in f_ref (193300000000000 # 1) common /\ slot_apart default_grid common /\
+  create_oms_bitmap common f_ref (193300000000000 # 1) default_grid = Ok (rep SF 4 ++ rep SU 4 ++ rep SF 8 ++ rep SU 17).
+Proof. cbv zeta. split; [reflexivity|]. split; [cbn; repeat split; discriminate|]. split; [cbn; lia|vm_compute; reflexivity]. Qed.
+
+Example same_extent_nonvacuous :
+  exists l, oms_maps (186000000000000 # 1) (196100000000000 # 1)
+              [[((191300000000000 # 1), (196100000000000 # 1))];
+               [((186000000000000 # 1), (190000000000000 # 1)); ((192000000000000 # 1), (195000000000000 # 1))]] = Ok l /\
+            length l = 2%nat.
+Proof. eexists. split; [vm_compute; reflexivity|reflexivity]. Qed.
+
+(* four lines 0->1, 1->0, 0->2 (no way back), 1->0 again (parallel): first match, None, and the loss of symmetry *)
+Example reversed_pairing_nonvacuous :
+  reversed_oms (map line_path [mkL 0 [10] 1; mkL 1 [11] 0; mkL 0 [12; 13] 2; mkL 1 [] 0]) =
+  Ok [Some 1; Some 0; None; Some 0] /\
+  NoDup (pair_ends [mkL 0 [10] 1; mkL 1 [11] 0; mkL 0 [12; 13] 2]).
+Proof. split; [vm_compute; reflexivity|]. apply NoDup_cons; [cbn; intuition congruence|]. apply NoDup_cons; [cbn; intuition congruence|]. apply NoDup_cons; [cbn; tauto|constructor]. Qed.
+
+Example oms_partition_nonvacuous :
+  let g := [mkN 0 KRoadm [10; 2] []; mkN 1 KRoadm [4; 11] []; mkN 10 KTrx [0] []; mkN 11 KTrx [1] [];
+            mkN 2 KAmp [3] []; mkN 3 KOther [1] []; mkN 4 KAmp [5] []; mkN 5 KOther [6] []; mkN 6 KAmp [0] []] in
+  chain_wf g [mkL 0 [2; 3] 1; mkL 1 [4; 5; 6] 0].
+Proof. apply Proofs.Oms.chain_wf_b_sound. vm_compute. reflexivity. Qed.
